@@ -420,9 +420,9 @@ def shared_container_types(chk):
     for k in range(1, 25):
         U = type(ub)('U%d' % k, (ub,), {'_descriptor': [('a', U, 0), ('b', U, 1)]})
     u = U()
-    t0 = time.perf_counter()
+    t0 = time.process_time()
     u.discriminator = 0
-    dt = time.perf_counter() - t0
+    dt = time.process_time() - t0
     chk.count(('union-reselect',), True)
     if dt > 2.0:
         chk.property_violation({'schema': 'hand-written unions nested 24 deep', 'operation': 'discriminator = 0 (already selected)'},
